@@ -1613,15 +1613,24 @@ def run_int_bindings(ctx, res, col, rng, sz):
         cases.append((gen_names_expr(rng, rng.choice([1, 2, 3, 4])), 'derivation'))
     consts = dict((n, int(v[0])) for n, v in VAR_TABLES['pyint'].items() if n.isalnum())
     n_graded = 0
+    stream_witnesses = 0
     for idx, (e, kind) in enumerate(cases):
         s = ''.join(tokens(e))
-        r = run_impl(s, 'pyint', 'default')
         exp = expected_of(e, 'pyint')
+        if exp[0] == 'skip' and exp[1] == 'range':
+            # towers beyond the floating-point range: nothing to compare, and an implementation that kept exact integers
+            # there would compute astronomically large numbers inside one uninterruptible C call
+            col.count('int_expected:beyond-range(not run)')
+            continue
+        if stream_witnesses >= 8:
+            break               # enough witnesses from this stream; do not keep exercising a broken path
+        r = run_impl(s, 'pyint', 'default')
         col.add(s, 'pyint', 'default', r, stream='int-bindings', exp=exp)
         res.oracle_evals += 1
         col.count('int_expected:' + exp[0])
         bad = check_value(r, exp)
         if bad:
+            stream_witnesses += 1
             witness(res, kind, s, 'pyint', 'default', bad + ' (variables bound to Python ints)', expected=plain_expected(exp),
                     canonical=s)
         if exp[0] == 'value':
@@ -1663,6 +1672,8 @@ def run_derivations(ctx, res, col, rng, sz):
         e = gen_expr(rng, depth, var_key, suf_key, arrays=(rng.random() < 0.15))
         exp = expected_of(e, var_key)
         col.count('derivation_expected:' + exp[0])
+        if var_key == 'pyint' and exp[0] == 'skip' and exp[1] == 'range':
+            continue            # see run_int_bindings: beyond the floating-point range nothing is compared
         canon_val = None
         for style in styles[:sz['renderings']] if sz['renderings'] < 6 else styles:
             if style == 'parens':
